@@ -25,13 +25,14 @@ def run(rep):
     rep.assume("h5py stores and returns arrays faithfully")
     R.row_index_provenance(rep)
     R.template_agreement(rep)
+    R.dataset_read_key(rep)
     R.separator_guard(rep)
     R.empty_selection_means_all(rep)
     R.one_append_per_column(rep)
     c02.analyse(rep, owner_filter=lambda o: o.startswith(("KW:", "PARAM:")),
                 rule="no-inplace-on-shared", rels=["reading.py"], only=R.SCOPE["C13"])
     R.definite_assignment(rep, ["reading.py"], only=R.SCOPE["C13"])
-    rep.floor("template-agreement", 6)
+    rep.floor("template-agreement", 7)
     rep.floor("row-index-provenance", 1)
     rep.floor("dataset-write", 2)
     rep.floor("column-shape", 2)
